@@ -366,6 +366,8 @@ class Run:
             if m is None:
                 if stats is not None:
                     self._st(hs, depth, 'emit-not-a-macro')
+                if self.stale_paint and t[4] is not None:
+                    self.stale.add(t[4])      # the known wrong reading also paints a stored identifier that is not (yet) a macro name
                 out.append(t)
                 continue
             if name in hs:
